@@ -200,6 +200,7 @@ var s struct {
 	running int32
 	current int32
 	alive   int32
+	quiet   bool
 	steps   int64
 
 	p       Params
@@ -810,9 +811,17 @@ func SetHook(f func(site int, arg any)) { hookFn = f }
 // while a single task is alive (it may read the simulated system's state without racing with it).
 func Hook(site int, arg any) {
 	if hookFn != nil && Active() && alone() {
+		setQuiet(true)
+		defer setQuiet(false)
 		hookFn(site, arg)
 	}
 }
+
+// While an observer runs, map iterations it triggers in the simulated system's code are canonical and draw nothing
+// from the tape: observing must not perturb the execution.
+//
+//go:norace
+func setQuiet(q bool) { s.quiet = q }
 
 // Probe counts that a branch of interest was reached.
 //
